@@ -139,7 +139,7 @@ pub fn run(r: &mut Runner) -> &'static str {
     r.rule = "inputs: accepted v2 headers - random (all families, arbitrary address bytes, TLV sections empty / well-formed / truncated / random, payloads to 65535, +- trailer) and the valid slice of the \
               control space. oracle: round trip - Builder::new(control bytes raw or recomputed from the decoded enums) + address_bytes + tlv_bytes / tlvs() / decoded items (single, batch, write_tlv; \
               only when R-TLV says the section is well-formed) and with_addresses(decoded address value) must rebuild exactly as_bytes(). non-trivial = specified family and a non-empty TLV section; \
-              distinct by SipHash of the input"
+              distinct by SipHash of the input Added later: validate-then-forward (iterator walked before it is written), items gathered with for_each, a clone_from copy as the source, near-miss candidates."
         .into();
     r.assumptions.push("conditioned on the parser accepting the candidate (C02 owns acceptance)".into());
     r.assumptions.push("a TypeLengthValues iterator taken from the header denotes the header's whole TLV section also after it has been walked (validate-then-forward); same reading as C10 / C20".into());
